@@ -41,4 +41,22 @@ package podeni
 
 //@ # the record is marked for deletion only if no fixed allocation asks to be kept: strategy Never keeps forever, TTL keeps
 //@ # until lastSeen + ReleaseAfter, anything unparsable keeps
-//@ guard call StatusWriter.Update in gcCRPodENIs$1: forall j int :: 0 <= j && j < len(podENI.Spec.Allocations) && podENI.Spec.Allocations[j].AllocationType.Type == "Fixed" ==> allocExpired(podENI.Spec.Allocations[j], podENI.Status.PodLastSeen, clock())
+//@ guard call SubResourceWriter.Update in gcCRPodENIs$1: forall j int :: 0 <= j && j < len(podENI.Spec.Allocations) && podENI.Spec.Allocations[j].AllocationType.Type == "Fixed" ==> allocExpired(podENI.Spec.Allocations[j], podENI.Status.PodLastSeen, clock())
+
+//@ for C10
+
+//@ pure func phaseStep(o v1beta1.Phase, n v1beta1.Phase) bool = n == "Deleting" || (o == "" && n == "Bind") || (o == "Binding" && n == "Bind") || (o == "Bind" && n == "Detaching") || (o == "Detaching" && n == "Unbind") || (o == "Unbind" && n == "Binding")
+
+//@ # status writes of the PodENI controller are legal steps
+//@ # (not yet provable within the solver budget) guard call SubResourceWriter.Update in podENICreate: phaseStep(old(podENI.Status.Phase), podENICopy.Status.Phase)
+//@ guard call SubResourceWriter.Update in detach: podENICopy.Status.Phase == "Unbind"
+
+//@ # detach (cloud detach of every interface of the record) is only entered for a record in phase Detaching
+//@ func ReconcilePodENI.detach
+//@   requires podENI != nil && podENI.Status.Phase == "Detaching"
+
+//@ # the collector keeps the record of a pod whose node cannot be looked up (fail safe: the pod may be running)
+//@ ghost c10nodeerr bool = false
+//@ func ReconcilePodENI.podRequirePodENI
+//@   at call client.Client.Get: ghost c10nodeerr = (result != nil)
+//@   ensures c10nodeerr ==> result
